@@ -1,7 +1,7 @@
 (* C01 — Python codec round-trip.  Statements only. *)
 From Coq Require Import String ZArith List Bool.
 From FcpV Require Import Base.Bits Schema.Types Wire.Wire Wire.WireProofs Py.PySerde Py.PySerdeProofs.
-From FcpV Require Import Py.BufferLib gen.PyBuffer Py.BufferProofs.
+From FcpV Require Import Py.BufferLib gen.PyBuffer Py.BufferProofs gen.PyLeaf Py.LeafProofs.
 Import ListNotations.
 Open Scope Z_scope.
 
@@ -101,3 +101,13 @@ Print Assumptions buffer_words_roundtrip.
 Example c01_buffer_nonvacuous :
   exists s, push_all py_init [(5, 3%nat); (-1, 7%nat); (300, 9%nat)] = POk s /\ py_get_buffer s = POk (s, [253; 179; 4]).
 Proof. eexists. split; vm_compute; reflexivity. Qed.
+
+(* the known finding signed-min read off the translated source: the byte 0x80 in an i8 field, i.e. the encoding of -128, is
+   decoded by _decode_builtin_signed as +128 (the comparison is word > max / 2, it should be >=) *)
+Theorem source_decodes_signed_min_as_positive :
+  forall m, (1 <= m)%nat -> forall buf a w rest,
+    Wire.read_word m (unread buf a) = Ok (w, rest) -> w = 2 ^ (Z.of_nat m - 1) ->
+    py__decode_builtin_signed (mk buf (Z.of_nat a)) (num m) = POk (mk buf (Z.of_nat (a + m)), 2 ^ (Z.of_nat m - 1)).
+Proof. exact decode_signed_min_positive.
+Qed.
+Print Assumptions source_decodes_signed_min_as_positive.
